@@ -202,6 +202,14 @@ def run_case(case: Dict[str, Any]) -> Dict[str, Any]:
                 return await real_once()
             work._run_once = counted_once       # instance level; the class is untouched
         else:
+            if case.get('predecessor') and origin is None:
+                # an earlier client of the same worker asked for the very same reply and vanished (RST) before the proxy could
+                # write a byte of it: whatever the proxy does with that undeliverable reply must not touch anybody else's
+                for _ in range(case['predecessor']):
+                    pre = rig.add_client('tcp')
+                    pre.send(request)
+                    pre.reset_close()
+                    rig.step(rng.randint(3, 8))
             client = rig.add_client(case.get('transport', 'unix'), rcvbuf=case.get('rcvbuf'), sndbuf=case.get('sndbuf'))
             work = None
         shim.S.short_write_p = case['short_p']
@@ -420,7 +428,7 @@ def run_case(case: Dict[str, Any]) -> Dict[str, Any]:
         else:
             rig.close()
     flushes = _flush_calls['n']
-    obs.update({'kind:' + kind: 1, 'rig:' + case['rig']: 1, 'client_half_close_cases': 1 if case.get('halfclose') else 0, 'flush_calls': flushes, 'flush>=10': 1 if flushes >= 10 else 0,
+    obs.update({'kind:' + kind: 1, 'rig:' + case['rig']: 1, 'aborted_predecessors': case.get('predecessor') or 0 if case['rig'] == 'step' else 0, 'client_half_close_cases': 1 if case.get('halfclose') else 0, 'flush_calls': flushes, 'flush>=10': 1 if flushes >= 10 else 0,
                 'saw_flush_before_shutdown_state': 1 if saw_flush_state else 0,
                 'shim:short': counts.get('send:short', 0), 'shim:eagain': counts.get('send:eagain-injected', 0) + counts.get('send:eagain-real', 0),
                 'bytes_delivered': len(client.rx) if 'client' in dir() else 0,
@@ -469,6 +477,8 @@ def cases(tier: str, seed: int):
              'rcvbuf': rng.choice([None, 4096]), 'sndbuf': rng.choice([None, 4096]),
              'close_timing': rng.choice(['before-client-reads', 'interleaved', 'interleaved']),
              'framing': rng.choice(['cl', 'close']), 'mode': rng.choice(['local', 'local', 'remote'])}
+        if rigk == 'step' and kind in ('error', 'reject', 'webclose', 'static') and rng.random() < 0.4:
+            c['predecessor'] = rng.choice([1, 1, 3])
         if kind in ('static', 'static-nogz', 'webclose', 'reject') and rng.random() < 0.35:
             c['halfclose'] = rng.choice(['at-once', 'mid'])
         if kind == 'webkeep':
